@@ -603,6 +603,9 @@ func runC08(w *World, r *Report) {
 	r.Rule("C08.array-alias", "no append on a slice derived from arrayReader.arr (the copies of an array-backed stream share that array): appends start from a fresh slice", 1)
 	arrayAliasCheck(w, r, "C08.array-alias")
 
+	r.Rule("C08.select-table", "the static select table of the merged reader: the entry for n sources receives from n distinct sources and each case returns the index and item of its own source", 4)
+	selectTableCheck(w, r, "C08.select-table")
+
 	// ---- merge-end
 	r.Rule("C08.merge-end", "merged reader: EOF only when no source is left; a source is dropped only when closed; Close closes all; static/reflect select boundary consistent; array-backed copies inherit the position", 5)
 	{
@@ -993,4 +996,174 @@ func arrayAliasCheck(w *World, r *Report, rule string) {
 	msr := w.Fn("schema", "MergeStreamReaders")
 	na := len(appendSites(msr))
 	r.Check(na >= 2, rule, "MergeStreamReaders append sites inspected", msr.Pos(), fmt.Sprintf("%d append sites in MergeStreamReaders, %d in package schema; none starts from an array reader's array", na, n), "the append sites of MergeStreamReaders are no longer seen by the rule")
+}
+
+// selectTableCheck: schema/select.go keeps one hand-written select per fan-in width. For the table entry of width n:
+// n receive cases; case j receives from ss[chosenList[K]].items for a distinct K < n; the arm taken for case j returns
+// chosenList[K] of that same K and the item received by that very case. (multiStreamReader.recv uses the returned
+// index to decide which source ended: a wrong index drops a live source and keeps a dead one.)
+func selectTableCheck(w *World, r *Report, rule string) {
+	rn := w.Fn("schema", "receiveN")
+	// table entries: stores of function literals into the array literal
+	type entry struct {
+		width int
+		fn    *ssa.Function
+	}
+	var entries []entry
+	instrs(rn, func(in ssa.Instruction) {
+		st, ok := in.(*ssa.Store)
+		if !ok {
+			return
+		}
+		ia, ok := st.Addr.(*ssa.IndexAddr)
+		if !ok {
+			return
+		}
+		idx, ok := constInt(ia.Index)
+		if !ok {
+			return
+		}
+		var fn *ssa.Function
+		switch v := st.Val.(type) {
+		case *ssa.Function:
+			fn = v
+		case *ssa.MakeClosure:
+			fn, _ = v.Fn.(*ssa.Function)
+		}
+		if fn != nil {
+			entries = append(entries, entry{int(idx), fn})
+		}
+	})
+	if len(entries) < 3 {
+		r.Fail(rule, "receiveN table", rn.Pos(), fmt.Sprintf("%d function literals found in the dispatch table (floor 3)", len(entries)))
+		return
+	}
+	// the dispatch index is len(chosenList)
+	dispatchOK := false
+	instrs(rn, func(in ssa.Instruction) {
+		if ia, ok := in.(*ssa.IndexAddr); ok {
+			if isLenOf(ia.Index, func(v ssa.Value) bool { _, isP := v.(*ssa.Parameter); return isP }) {
+				dispatchOK = true
+			}
+		}
+	})
+	r.Check(dispatchOK, rule, "receiveN dispatches on len(chosenList)", rn.Pos(), "table[len(chosenList)]", "the select table is not indexed by the number of open sources")
+	chosenIdx := func(fn *ssa.Function, v ssa.Value) (int64, bool) { // v == chosenList[K]
+		u, ok := v.(*ssa.UnOp)
+		if !ok {
+			return 0, false
+		}
+		ia, ok := u.X.(*ssa.IndexAddr)
+		if !ok || len(fn.Params) == 0 || ia.X != ssa.Value(fn.Params[0]) {
+			return 0, false
+		}
+		return constInt(ia.Index)
+	}
+	chanIdx := func(fn *ssa.Function, v ssa.Value) (int64, bool) { // v == ss[chosenList[K]].items
+		u, ok := v.(*ssa.UnOp)
+		if !ok {
+			return 0, false
+		}
+		fa, ok := u.X.(*ssa.FieldAddr)
+		if !ok {
+			return 0, false
+		}
+		u2, ok := fa.X.(*ssa.UnOp)
+		if !ok {
+			return 0, false
+		}
+		ia, ok := u2.X.(*ssa.IndexAddr)
+		if !ok || len(fn.Params) < 2 || ia.X != ssa.Value(fn.Params[1]) {
+			return 0, false
+		}
+		return chosenIdx(fn, ia.Index)
+	}
+	for _, e := range entries {
+		name := fmt.Sprintf("select table entry for %d sources", e.width)
+		var sel *ssa.Select
+		var single *ssa.UnOp
+		instrs(e.fn, func(in ssa.Instruction) {
+			if s, ok := in.(*ssa.Select); ok {
+				sel = s
+			}
+			if u, ok := in.(*ssa.UnOp); ok && u.Op == token.ARROW {
+				single = u
+			}
+		})
+		var chans []ssa.Value
+		switch {
+		case sel != nil:
+			for _, st := range sel.States {
+				chans = append(chans, st.Chan)
+			}
+		case single != nil:
+			chans = []ssa.Value{single.X}
+		}
+		if len(chans) != e.width {
+			r.Fail(rule, name, e.fn.Pos(), fmt.Sprintf("the entry receives from %d channels", len(chans)))
+			continue
+		}
+		ks := make([]int64, len(chans))
+		seen := map[int64]bool{}
+		good, why := true, ""
+		for j, c := range chans {
+			k, ok := chanIdx(e.fn, c)
+			if !ok || k < 0 || int(k) >= e.width || seen[k] {
+				good, why = false, fmt.Sprintf("case %d does not receive from ss[chosenList[K]].items with a fresh K < %d", j, e.width)
+				break
+			}
+			seen[k] = true
+			ks[j] = k
+		}
+		if good {
+			// every return: which case is it in?
+			instrs(e.fn, func(in ssa.Instruction) {
+				ret, ok := in.(*ssa.Return)
+				if !ok || len(ret.Results) != 3 || !good {
+					return
+				}
+				j := int64(0)
+				if sel != nil {
+					found := false
+					for _, g := range guardsOf(ret.Block()) {
+						op, x, y, ok := asCmp(g.cond)
+						if ok && op == token.EQL && g.pol {
+							if ex, ok := x.(*ssa.Extract); ok && ex.Tuple == ssa.Value(sel) && ex.Index == 0 {
+								if c, ok := constInt(y); ok {
+									j, found = c, true
+								}
+							}
+						}
+					}
+					if !found {
+						good, why = false, "a return is not inside a select case arm"
+						return
+					}
+				}
+				k, ok := chosenIdx(e.fn, ret.Results[0])
+				if !ok || k != ks[j] {
+					good, why = false, fmt.Sprintf("the arm of case %d (receiving from source chosenList[%d]) returns another index", j, ks[j])
+					return
+				}
+				// the item returned is the one this case received
+				if sel != nil {
+					al, ok := ret.Results[1].(*ssa.Alloc)
+					okItem := false
+					if ok {
+						for _, ref := range *al.Referrers() {
+							if st, ok := ref.(*ssa.Store); ok {
+								if ex, ok := st.Val.(*ssa.Extract); ok && ex.Tuple == ssa.Value(sel) && int64(ex.Index) == 2+j {
+									okItem = true
+								}
+							}
+						}
+					}
+					if !okItem {
+						good, why = false, fmt.Sprintf("the arm of case %d returns an item other than the one it received", j)
+					}
+				}
+			})
+		}
+		r.Check(good, rule, name, e.fn.Pos(), fmt.Sprintf("%d cases, each returning the index and the item of its own source", e.width), why+": when that source ends the merged reader removes a live source instead (its remaining items are lost, silently) and keeps selecting on the ended one")
+	}
 }
